@@ -275,18 +275,22 @@ def sub_seed(seed: int, *parts: Any) -> int:
 # ---------------------------------------------------------------------------------------------------------------
 
 
-def _signature_of(module: Any, kind: str, case: Any) -> str | None:
+def signature_and_message(module: Any, kind: str, case: Any) -> tuple[str | None, str]:
     try:
         module.eval_case(kind, case)
     except InvalidCase:
-        return None
+        return None, ""
     except Mismatch as m:
-        return f"{module.PROPERTY}/{kind}/{m.sig}"
+        return f"{module.PROPERTY}/{kind}/{m.sig}", m.msg
     except (KeyboardInterrupt, SystemExit, MemoryError):
         raise
     except BaseException as e:  # noqa: BLE001
-        return exception_signature(module.PROPERTY, kind, e)
-    return None
+        return exception_signature(module.PROPERTY, kind, e), f"{type(e).__name__}: {e}"[:500]
+    return None, ""
+
+
+def _signature_of(module: Any, kind: str, case: Any) -> str | None:
+    return signature_and_message(module, kind, case)[0]
 
 
 def _paths(obj: Any, prefix: tuple = ()) -> list[tuple]:
